@@ -18,7 +18,7 @@ META = {
     "encoded": ["gpio.Peripheral.__init__", "gpio.Peripheral.elaborate", "gpio.Peripheral.Mode/Input/Output/SetClr",
                 "gpio.Peripheral.Output._FieldAction.elaborate", "csr.reg.Builder", "csr.reg.Bridge",
                 "csr.bus.Multiplexer.elaborate", "csr.reg.Register.elaborate", "csr.action.R/W/RW"],
-    "also": '17 pins (thorough 24, 33); two SetClr writes back to back; enumerated Output/SetClr/read sequences without idle cycles; pins checked in every cycle across Mode/Output/SetClr writes',
+    "also": '17 pins (thorough 24, 33); 24- and 40-bit data buses with registers that just spill into another word; Mode writes inside the enumerated sequences; two SetClr writes back to back; enumerated Output/SetClr/read sequences without idle cycles; pins checked in every cycle across Mode/Output/SetClr writes',
     "bounds": "pin count 1,2,3,4,5,8,9 (thorough + 12,16,17), data width 8/16 (thorough 8/16/32), minimal address "
               "width and +1, input_stages 0-3; windows: Mode write + Output write (+2), Output write + SetClr write + "
               "Output read-back, Input read with pin inputs free in every cycle; register transactions back to back "
@@ -51,6 +51,11 @@ def configs(tier, seed):
                     if p >= 17 and (st != 1 or aw != aw0 or (tier == "quick" and dw != 16)):
                         continue
                     out.append({"pins": p, "dw": dw, "aw": aw, "stages": st, "base": aw == aw0})
+    # data widths that are not powers of two (legal for CSR buses), with pin counts whose Mode / SetClr registers just
+    # spill into one more bus word
+    # (address widths worked out by hand from the documented layout, not asked from the library)
+    for p, dw, aw in ((13, 24, 3), (25, 24, 4), (21, 40, 3)):
+        out.append({"pins": p, "dw": dw, "aw": aw, "stages": 1, "base": True})
     return out
 
 
@@ -180,7 +185,7 @@ def queries(h, cfg):
             n = nchunks(h, "Output")
             tot = n                                   # initial write
             for op in ops:
-                tot += nchunks(h, "SetClr") if op == "SW" else n
+                tot += nchunks(h, "SetClr") if op == "SW" else (nchunks(h, "Mode") if op == "MW" else n)
             return tot + 1 + n + 1                    # idle, final read, data
 
         def build(h, fr):
@@ -194,6 +199,8 @@ def queries(h, cfg):
                 elif op == "SW":
                     a2, V, t = write_reg(h, fr, t, "SetClr", 2 * P)
                     events.append((t - 1 + 2, "S", V))
+                elif op == "MW":
+                    a2, V, t = write_reg(h, fr, t, "Mode", 2 * P)       # a Mode write leaves every Output bit alone
                 else:
                     s_, e_ = h.regs["Output"]
                     a2, got = [], []
@@ -326,16 +333,43 @@ def queries(h, cfg):
             Q("two-setclr-writes-back-to-back", k_setclr(h) + nchunks(h, "SetClr"), setclr_twice, max_prefix=PFX)] + \
         ([Q("seq-" + "-".join(ops), seq_query(ops)[0](h), seq_query(ops)[1], max_prefix=PFX)
           for ops in (("SW", "OR"), ("SW", "OW"), ("OW", "SW"), ("SW", "OR", "SW"), ("OR", "SW", "OW"), ("SW", "SW", "OR"),
-                      ("OW", "OR"), ("SW", "OW", "OR"))] if ((stages == 2 and cfg.get("base")) or P >= 17) else []) + \
+                      ("OW", "OR"), ("SW", "OW", "OR"), ("MW",), ("MW", "OR", "MW"), ("SW", "MW"))] if ((stages == 2 and cfg.get("base")) or P >= 17) else []) + \
         ([Q("pins-every-cycle-" + "-".join(ops), pins_every_cycle(ops)[0](h), pins_every_cycle(ops)[1], max_prefix=PFX)
           for ops in (("MW",), ("MW", "OW"), ("SW", "MW"), ("OW", "MW", "SW"))] if (stages == 2 and P <= 5 and cfg.get("base")) else [])
 
 
+def _geometry(cfg):
+    """every register spans the bus words its documented width needs (Mode, SetClr: 2 bits per pin; Input, Output: 1)"""
+    h = maker(cfg)()
+    bad = []
+    for name, bits in (("Mode", 2 * cfg["pins"]), ("Input", cfg["pins"]), ("Output", cfg["pins"]), ("SetClr", 2 * cfg["pins"])):
+        s_, e_ = h.regs[name]
+        need = -(-bits // cfg["dw"])
+        if (e_ - s_) * cfg["dw"] < bits or (e_ - s_) >= 2 * max(need, 1) and (e_ - s_) > 1:
+            bad.append(f"{name}: {e_ - s_} words for {bits} bits on a {cfg['dw']}-bit bus")
+    return bad
+
+
 def check(cfg, out, stats):
     import sys
+    try:
+        bad = _geometry(cfg)
+    except (ValueError, TypeError):
+        bad = []          # (a refused configuration is reported by run_queries)
+    if bad:
+        from ..bmc import mark_violation
+        from ..e1 import cfg_key
+        mark_violation("register-geometry")
+        out.violations.append({"key": f"register-geometry@{cfg_key(cfg)}",
+                               "what": f"C16 a register does not span the bus words its width needs: {'; '.join(bad)} "
+                                       f"({cfg_key(cfg)})", "query": "geometry", "cfg": cfg, "stimulus": [], "prefix": 0,
+                               "k": 0, "detail": {}})
+        return
     run_queries(sys.modules[__name__], cfg, out, stats, cosim_cycles=24)
 
 
 def replay(v):
     import sys
+    if v["query"] == "geometry":
+        return bool(_geometry(v["cfg"]))
     return _replay(sys.modules[__name__], v)
